@@ -7,9 +7,9 @@ out = os.path.join(A.VERIF, "build", unit + ".rs")
 open(out, "w").write(text)
 for p, a in info["lost_anchors"]:
     print("LOST ANCHOR", p, a[:60])
-cmd = ["verus", out, "--multiple-errors", "5"]
+cmd = ["verus", out, "--multiple-errors", "5", "--verify-root"]
 if len(sys.argv) > 2:
-    cmd += ["--verify-root", "--verify-function", sys.argv[2]]
+    cmd += ["--verify-function", sys.argv[2]]
 cmd += sys.argv[3:]
 r = subprocess.run(cmd, capture_output=True, text=True)
 err = r.stderr
